@@ -60,26 +60,16 @@ def BatchFn.supported : BatchFn → Bool
   | .each _ => true
   | _ => false
 
-/-- combiners with a proved `LawfulCombiner _ Eq`; `topK` is NOT lawful on ill-formed values
-    (`Val.enc`, hence `Val.le`, does not separate `cons 1 0` from `cons 1 nil`), see `Props/C05.lean` -/
-def Comb.supported : Comb → Bool
-  | .topK _ => false
-  | _ => true
-
 def Step.isJoin : Step → Bool
   | .join .. => true
   | _ => false
 
-/-- a step that may occur anywhere, including inside a join side: every builder call except a join,
-    a batch step with a slice-dependent chunk function, and a `TopK` combine -/
+/-- a step that may occur anywhere, including inside a join side: every builder call except a join and
+    a batch step with a slice-dependent chunk function. Every combiner of the library — `TopK` included
+    (`lawful_topK`, `Props/C05.lean`) — is covered, in all four combine entry points and `top_k_per_key`. -/
 def Step.subSupported : Step → Bool
   | .mapBatches _ f => f.supported
   | .mapValuesBatches _ f => f.supported
-  | .combineValues c => c.supported
-  | .combineValuesLifted c => c.supported
-  | .combineGlobally c _ => c.supported
-  | .combineGloballyLifted c _ => c.supported
-  | .topKPerKey _ => false
   | .join .. => false
   | _ => true
 
@@ -171,17 +161,8 @@ theorem nodes_elementwise (s : Step) (e : EStep) (he : s.toEStep = some e) (hp :
   subst this
   exact subBuilt_of_estep e hp
 
-/-- every covered combiner is lawful on the nose -/
-theorem Comb.lawful (c : Comb) (h : c.supported = true) : LawfulCombiner c.toCombiner Eq := by
-  cases c with
-  | count => exact lawful_count
-  | sum => exact lawful_sum
-  | min => exact lawful_min
-  | max => exact lawful_max
-  | minT => exact lawful_minT
-  | maxT => exact lawful_maxT
-  | distinctSet => exact lawful_distinctSet
-  | topK k => exact absurd h (by simp [Comb.supported])
+/-- every combiner of the library is lawful on the nose -/
+theorem Comb.lawful (c : Comb) : LawfulCombiner c.toCombiner Eq := lawful_all c
 
 theorem mem_conv_tail {b : Bool} {nd : Node Part} (h : nd ∈ (if b then [st (mapOp id)] else [])) :
     nd = st (mapOp id) := by
@@ -220,28 +201,28 @@ theorem Step.nodes_subBuilt (s : Step) (h : s.subSupported = true) :
   | glen => exact nodes_elementwise _ _ rfl trivial
   | gsum => exact nodes_elementwise _ _ rfl trivial
   | combineValues c =>
-    have hc := Comb.lawful c h
+    have hc := Comb.lawful c
     intro nd hnd
     simp only [Step.apply, List.nil_append, List.mem_append, List.mem_singleton] at hnd
     rcases hnd with rfl | hnd
     · exact .combineValues _ Eq hc
     · rw [mem_conv_tail hnd]; exact subBuilt_conv
   | combineValuesLifted c =>
-    have hc := Comb.lawful c h
+    have hc := Comb.lawful c
     intro nd hnd
     simp only [Step.apply, List.nil_append, List.mem_append, List.mem_singleton] at hnd
     rcases hnd with rfl | hnd
     · exact .combineValuesLifted _ Eq hc
     · rw [mem_conv_tail hnd]; exact subBuilt_conv
   | combineGlobally c fo =>
-    have hc := Comb.lawful c h
+    have hc := Comb.lawful c
     intro nd hnd
     simp only [Step.apply, List.nil_append, List.mem_append, List.mem_singleton] at hnd
     rcases hnd with rfl | hnd
     · exact .combineGlobal _ Eq hc fo
     · rw [mem_conv_tail hnd]; exact subBuilt_conv
   | combineGloballyLifted c fo =>
-    have hc := Comb.lawful c h
+    have hc := Comb.lawful c
     intro nd hnd
     simp only [Step.apply, List.nil_append, List.mem_append, List.mem_singleton] at hnd
     rcases hnd with rfl | hnd
@@ -260,7 +241,10 @@ theorem Step.nodes_subBuilt (s : Step) (h : s.subSupported = true) :
     · exact .gbk
     · exact .combineValuesLifted _ Eq lawful_distinctSet
     · exact subBuilt_of_estep (.flatMap ungroupF) trivial
-  | topKPerKey k => exact absurd h (by simp [Step.subSupported])
+  | topKPerKey k =>
+    intro nd hnd
+    simp only [Step.apply, List.nil_append, List.mem_singleton] at hnd
+    subst hnd; exact .combineValues _ Eq (lawful_topK k)
   | mapSide side => exact nodes_elementwise _ _ rfl trivial
   | filterSide side => exact nodes_elementwise _ _ rfl trivial
   | tryMap => exact nodes_elementwise _ _ rfl trivial
